@@ -1292,6 +1292,87 @@ proof fn lemma_dag_dom_range(a: &GraphType, b: &GraphType, n: nat)
     }
 }
 
+pub broadcast proof fn lemma_map_insert_existing_dom<K, V>(m: Map<K, V>, k: K, v: V)
+    requires m.contains_key(k),
+    ensures #[trigger] m.insert(k, v).dom() == m.dom(),
+{
+    assert(m.insert(k, v).dom() =~= m.dom());
+}
+
+// ---------------------------------------------------------------- requirement propagation (C02, C04)
+/// the dependency a -> b is marked "the consumer needs its upstream to run"
+spec fn req_yes(dag: &GraphType, a: usize, b: usize) -> bool {
+    dag.edges()[(a, b)].required == Required::Yes
+}
+
+/// `s` is closed under "is consumed by a member through Ephemeral jobs": every dependency into a member
+/// is marked required, and every Ephemeral job at the source of such a dependency is a member too
+spec fn req_closed(dag: &GraphType, jobs: Seq<NodeInfo>, s: Set<usize>) -> bool {
+    forall|u: usize, v: usize| #![trigger dag.has_edge(u, v), s.contains(v)]
+        s.contains(v) && dag.has_edge(u, v) ==> req_yes(dag, u, v) && (jobs[u as int].state is Ephemeral ==> s.contains(u))
+}
+
+/// between two graphs only `required` flags changed, and only to Yes
+spec fn req_only_raised(d0: &GraphType, d1: &GraphType) -> bool {
+    forall|x: usize, y: usize| #![trigger d1.edges()[(x, y)]] d0.has_edge(x, y) ==>
+        d1.edges()[(x, y)].invalidated == d0.edges()[(x, y)].invalidated
+        && (d1.edges()[(x, y)].required == d0.edges()[(x, y)].required || d1.edges()[(x, y)].required == Required::Yes)
+}
+
+/// flags changed only on dependencies whose consumer is `n` or an Ephemeral job
+spec fn req_changed_only_into(d0: &GraphType, d1: &GraphType, jobs: Seq<NodeInfo>, n: usize) -> bool {
+    forall|x: usize, y: usize| #![trigger d1.edges()[(x, y)]] d0.has_edge(x, y) && d1.edges()[(x, y)].required != d0.edges()[(x, y)].required
+        ==> y == n || jobs[y as int].state is Ephemeral
+}
+
+proof fn lemma_req_closed_mono(d0: &GraphType, d1: &GraphType, jobs: Seq<NodeInfo>, s: Set<usize>)
+    requires dag_dom_same(d0, d1), req_only_raised(d0, d1), req_closed(d0, jobs, s),
+    ensures req_closed(d1, jobs, s),
+{
+    assert forall|u: usize, v: usize| #![trigger d1.has_edge(u, v), s.contains(v)]
+        s.contains(v) && d1.has_edge(u, v) implies req_yes(d1, u, v) && (jobs[u as int].state is Ephemeral ==> s.contains(u)) by {
+        assert(d1.edges().dom().contains((u, v)) == d0.edges().dom().contains((u, v)));
+        assert(d0.has_edge(u, v));
+        let _ = d1.edges()[(u, v)];
+    }
+}
+
+proof fn lemma_req_closed_union(d: &GraphType, jobs: Seq<NodeInfo>, s1: Set<usize>, s2: Set<usize>)
+    requires req_closed(d, jobs, s1), req_closed(d, jobs, s2),
+    ensures req_closed(d, jobs, s1.union(s2)),
+{
+    assert forall|u: usize, v: usize| #![trigger d.has_edge(u, v), s1.union(s2).contains(v)]
+        s1.union(s2).contains(v) && d.has_edge(u, v) implies req_yes(d, u, v) && (jobs[u as int].state is Ephemeral ==> s1.union(s2).contains(u)) by {
+        if s1.contains(v) { assert(d.has_edge(u, v) && s1.contains(v)); } else { assert(d.has_edge(u, v) && s2.contains(v)); }
+    }
+}
+
+proof fn lemma_req_only_raised_trans(d0: &GraphType, d1: &GraphType, d2: &GraphType)
+    requires dag_dom_same(d0, d1), dag_dom_same(d1, d2), req_only_raised(d0, d1), req_only_raised(d1, d2),
+    ensures req_only_raised(d0, d2), dag_dom_same(d0, d2),
+{
+    assert forall|x: usize, y: usize| #![trigger d2.edges()[(x, y)]] d0.has_edge(x, y) implies
+        d2.edges()[(x, y)].invalidated == d0.edges()[(x, y)].invalidated
+        && (d2.edges()[(x, y)].required == d0.edges()[(x, y)].required || d2.edges()[(x, y)].required == Required::Yes) by {
+        assert(d1.edges().dom().contains((x, y)) == d0.edges().dom().contains((x, y)));
+        assert(d1.has_edge(x, y));
+        let _ = d1.edges()[(x, y)];
+    }
+}
+
+proof fn lemma_req_changed_trans(d0: &GraphType, d1: &GraphType, d2: &GraphType, jobs: Seq<NodeInfo>, n: usize, m: usize)
+    requires dag_dom_same(d0, d1), dag_dom_same(d1, d2), req_changed_only_into(d0, d1, jobs, n), req_changed_only_into(d1, d2, jobs, m),
+        m == n || jobs[m as int].state is Ephemeral,
+    ensures req_changed_only_into(d0, d2, jobs, n),
+{
+    assert forall|x: usize, y: usize| #![trigger d2.edges()[(x, y)]] d0.has_edge(x, y) && d2.edges()[(x, y)].required != d0.edges()[(x, y)].required
+        implies y == n || jobs[y as int].state is Ephemeral by {
+        assert(d1.edges().dom().contains((x, y)) == d0.edges().dom().contains((x, y)));
+        assert(d1.has_edge(x, y));
+        let _ = d1.edges()[(x, y)];
+    }
+}
+
 /// one state write (a set_node_state! expansion and the bookkeeping that goes with it)
 proof fn lemma_write_ok(pre: Seq<NodeInfo>, post: Seq<NodeInfo>, m: Map<String, usize>, dag: &GraphType,
     r0: Set<String>, r1: Set<String>, c0: Set<String>, c1: Set<String>, fin: bool, n: int)
